@@ -19,8 +19,9 @@ independent of the engine and of the Coq model.  The intrinsic oracle replays th
   * once all generators are closed every variable is unbound.
 Cases in which the reference meets an occurs-check failure are unspecified from that event on.
 """
-from lib import terms
+from lib import terms, pyconsts
 from lib.terms import g_term, g_list, g_nat
+from lib.pyconsts import to_model
 
 # ------------------------------------------------------------------ reference unifier
 
@@ -99,7 +100,8 @@ class RefRun:
         st = self.state.get(i)
         y = 0
         if op == 'create':
-            self.state[i] = ('fresh', (_resolve(ev[2], self.sub), _resolve(ev[3], self.sub)), dict(self.sub))
+            # Python constants ["c", k] (lib/pyconsts.py) are compared by the class of == they belong to
+            self.state[i] = ('fresh', (_resolve(to_model(ev[2]), self.sub), _resolve(to_model(ev[3]), self.sub)), dict(self.sub))
         elif op == 'next':
             if st and st[0] == 'fresh':
                 r, sub = _ref_mgu([e for _, e in self.stack] + [st[1]])
@@ -167,6 +169,14 @@ def _gen_case(rng):
     nv = rng.choice([2, 2, 3, 3, 4, 5])
     ng = rng.choice([2, 2, 3, 3, 4, 5])
     pairs = [_pair(rng, nv) for _ in range(ng)]
+    if rng.random() < 0.3:
+        # constants that only the Python API can produce (None, bools, floats, bytes, tuples ...; no NaN here: it is not
+        # equal to itself, so no most general unifier describes the engine's bindings - kind 'pair' covers it)
+        pal = [c for c in pyconsts.palette(rng) if not pyconsts.has_nan(c)] or [['c', 0]]
+        pairs = [(pyconsts.sprinkle(rng, a, pal, 0.6), pyconsts.sprinkle(rng, b, pal, 0.6)) for a, b in pairs]
+        if rng.random() < 0.5:
+            k = rng.randrange(ng)
+            pairs[k] = (['v', rng.randrange(nv)], list(rng.choice(pal)))
     style = rng.choice(['early', 'early', 'random', 'random', 'random', 'nested'])
     ref = RefRun()
     evs = []
@@ -227,7 +237,7 @@ def _gen_case(rng):
         # something more on top of the stack, then everything is taken down again
         if ref.stack and rng.random() < 0.5:
             v = rng.randrange(nv)
-            emit(['create', ng, ['v', v], list(rng.choice(CONSTS))])
+            emit(['create', ng, ['v', v], list(rng.choice(CONSTS)) if rng.random() < 0.7 else pyconsts.rand_const(rng, rng.choice([0, 1, 2, 3, 5, 6, 7]))])
             if emit(['next', ng]) is None:
                 alive = False
     if alive:
@@ -299,7 +309,7 @@ def model_expr(case):
     evs = []
     for e in case['events']:
         if e[0] == 'create':
-            evs.append('(SCreate %s %s %s)' % (g_nat(e[1]), g_term(e[2]), g_term(e[3])))
+            evs.append('(SCreate %s %s %s)' % (g_nat(e[1]), g_term(to_model(e[2])), g_term(to_model(e[3]))))
         elif e[0] == 'next':
             evs.append('(SNext %s)' % g_nat(e[1]))
         else:
@@ -335,7 +345,7 @@ def impl(case):
     from yldprolog import engine as E
     yp = E.YP()
     nv = case['nvars']
-    T = terms.ImplTerms([yp], nv)
+    T = pyconsts.make_impl_terms([yp], nv)
     slots = {}
     obs = []
     try:
@@ -378,7 +388,7 @@ def impl(case):
 
 def _ev_text(e):
     if e[0] == 'create':
-        return 'g%d = unify(%s, %s)' % (e[1], terms.show_term(e[2]), terms.show_term(e[3]))
+        return 'g%d = unify(%s, %s)' % (e[1], pyconsts.show_term(e[2]), pyconsts.show_term(e[3]))
     return {'next': 'next(g%d)', 'close': 'g%d.close()', 'drop': 'del g%d'}[e[0]] % e[1]
 
 def _spec_vs_model(case, mo, spec):
